@@ -115,11 +115,7 @@ func (t Type) pair() (Type, Type) {
 }
 
 func (t Type) isSafeStr() bool {
-	switch t.base() {
-	case TypeSlice, TypeMap, TypeStruct:
-		return false
-	}
-	return true
+	return t.base() != TypeStruct
 }
 
 func sliceType(value Type) Type {
@@ -242,15 +238,27 @@ func (v Value) Int8() int8       { return int8(v.num) }
 func (v Value) Byte() byte       { return byte(v.num) }
 func (v Value) Uint8() uint8     { return uint8(v.num) }
 
+// safeStr renders a nested value. Struct references below the first level are
+// elided; slices and maps are rendered in full, path holds the containers being
+// rendered so that a self-referential one is cut instead of recursing forever.
 type safeStr interface {
-	SafeStr() string
+	SafeStr(path []any) string
 }
 
-func (v Value) safeStr() string {
+func (v Value) safeStr(path []any) string {
 	if v, ok := v.value.(safeStr); ok {
-		return v.SafeStr()
+		return v.SafeStr(path)
 	}
 	return v.String()
+}
+
+func onPath(path []any, key any) bool {
+	for _, p := range path {
+		if p == key {
+			return true
+		}
+	}
+	return false
 }
 func newZero(t Type) Value {
 	switch t {
@@ -774,21 +782,33 @@ func (s *sliceT) Append(items ...Value) Value {
 	return NewSlice(s.valueType, append(s.data, items...))
 }
 
+// pathKey identifies the elements a slice refers to (sub-slices share them).
+func (s *sliceT) pathKey() any {
+	if len(s.data) == 0 {
+		return nil
+	}
+	return [2]any{&s.data[0], len(s.data)}
+}
+
 func (s *sliceT) String() string {
 	var p []string
 	for _, v := range s.data {
-		p = append(p, v.safeStr())
+		p = append(p, v.safeStr([]any{s.pathKey()}))
 	}
 	return "[" + strings.Join(p, " ") + "]"
 }
 
-func (s *sliceT) SafeStr() string {
+func (s *sliceT) SafeStr(path []any) string {
+	if onPath(path, s.pathKey()) {
+		return "[...]"
+	}
+	path = append(path, s.pathKey())
 	var p []string
 	for _, v := range s.data {
 		if !v.t.isSafeStr() {
 			return "[...]"
 		}
-		p = append(p, v.safeStr())
+		p = append(p, v.safeStr(path))
 	}
 	return "[" + strings.Join(p, " ") + "]"
 }
@@ -891,18 +911,22 @@ func (m *stringMap) Range() func() (Value, Value, bool) {
 func (m *stringMap) String() string {
 	var p []string
 	for k, v := range m.data {
-		p = append(p, k+":"+v.safeStr())
+		p = append(p, k+":"+v.safeStr([]any{m}))
 	}
 	return "map[" + strings.Join(p, " ") + "]"
 }
 
-func (m *stringMap) SafeStr() string {
+func (m *stringMap) SafeStr(path []any) string {
+	if onPath(path, m) {
+		return "map[...]"
+	}
+	path = append(path, m)
 	var p []string
 	for k, v := range m.data {
 		if !v.t.isSafeStr() {
 			return "map[...]"
 		}
-		p = append(p, k+":"+v.safeStr())
+		p = append(p, k+":"+v.safeStr(path))
 	}
 	return "map[" + strings.Join(p, " ") + "]"
 }
@@ -974,18 +998,22 @@ func (m *numericMap) Range() func() (Value, Value, bool) {
 func (m *numericMap) String() string {
 	var p []string
 	for k, v := range m.data {
-		p = append(p, Value{t: m.keyType, num: k}.String()+":"+v.safeStr())
+		p = append(p, Value{t: m.keyType, num: k}.String()+":"+v.safeStr([]any{m}))
 	}
 	return "map[" + strings.Join(p, " ") + "]"
 }
 
-func (m *numericMap) SafeStr() string {
+func (m *numericMap) SafeStr(path []any) string {
+	if onPath(path, m) {
+		return "map[...]"
+	}
+	path = append(path, m)
 	var p []string
 	for k, v := range m.data {
 		if !v.t.isSafeStr() {
 			return "map[...]"
 		}
-		p = append(p, Value{t: m.keyType, num: k}.String()+":"+v.safeStr())
+		p = append(p, Value{t: m.keyType, num: k}.String()+":"+v.safeStr(path))
 	}
 	return "map[" + strings.Join(p, " ") + "]"
 }
@@ -1046,12 +1074,12 @@ func (s *structT) String() string {
 	for _, k := range s.Order {
 		v := s.Lookup[k]
 		vv, _ := s.Fields.Get(v)
-		items = append(items, k+":"+vv.safeStr())
+		items = append(items, k+":"+vv.safeStr(nil))
 	}
 	return "&{" + strings.Join(items, " ") + "}"
 }
 
-func (s *structT) SafeStr() string {
+func (s *structT) SafeStr(path []any) string {
 	items := []string{}
 	for _, k := range s.Order {
 		v := s.Lookup[k]
@@ -1059,7 +1087,7 @@ func (s *structT) SafeStr() string {
 		if !vv.t.isSafeStr() {
 			return "&{...}"
 		}
-		items = append(items, k+":"+vv.safeStr())
+		items = append(items, k+":"+vv.safeStr(path))
 	}
 	return "&{" + strings.Join(items, " ") + "}"
 }
